@@ -367,10 +367,8 @@ def execute(plan: dict[str, Any]) -> dict[str, Any]:
                                          "of raising ValueError"})
     finally:
         fs.uninstall()
-    unclosed = fs.unclosed()
-    if unclosed:
-        violations.append({"sig": "C06/handle-left-open/-/-",
-                           "detail": f"{unclosed} handle(s) opened by from_filepath left open"})
+    # not a verdict: no property speaks about file handles (see DESIGN.md 11.2, second false alarm)
+    probes["handles_left_open_at_end_of_run"] = fs.unclosed()
     by_path = sum(1 for v in plan["variants"] if v["op"]["via"] == "path")
     probes["seam_bypassed"] = max(0, by_path - len(fs.opened))
     probes["opens_through_seam"] = len(fs.opened)
